@@ -112,6 +112,8 @@ static void h_run_case(hcase_t* c) {
   rt_reg((void*)&owner_cell, 8, 502, 8);
   rt_name(&umtx, sizeof umtx, 2000, sizeof umtx);
   rt_reg(nodes, sizeof nodes, 100, 8);
+  rt_reg_rest(&umtx, sizeof umtx, 3900);   /* search mode only: fields the model does not know */
+  rt_reg_rest(&cond, sizeof cond, 4900);
   rt_name(nodes, sizeof nodes, 1, sizeof nodes[0]);
   t1_run(n, prog, c->sched, c->nsched, dmax);
   rt_print_trace();
